@@ -120,13 +120,27 @@ def plan(seed, tier):
 MANDATORY_CLASSES = ["pep_qvality", "pep_kde_nnls", "pep_hist_nnls", "q_from_counts", "q_from_peps", "files"]
 
 
+_BUFFERS = {}
+
+
+def _buffer(kind, arr):
+    """Callers often keep one preallocated array per size and refill it: the same objects, new contents."""
+    key = (kind, len(arr), arr.dtype.str)
+    b = _BUFFERS.get(key)
+    if b is None:
+        b = _BUFFERS[key] = np.empty(len(arr), dtype=arr.dtype)
+    b[:] = arr
+    return b
+
+
 def _run_alg(case, fn, algname, lo, hi, name):
     rng = core.seed_seq(case["seed"], "C06", case["class"], case["index"])
     res = Result(case)
     nt = evals = 0
     for rep in range(case["reps"]):
         s, t, meta = gen_mixture(rng, big=(rep == 0 and case["index"] % 5 == 0))
-        s_in, t_in = s.copy(), t.copy()
+        reuse = bool(rep % 2)
+        s_in, t_in = (_buffer("s", s), _buffer("t", t)) if reuse else (s.copy(), t.copy())
         c = core.Call(fn, s_in, t_in, algname)
         if not (np.array_equal(s_in, s) and np.array_equal(t_in, t)):
             # values are owed to the PSMs in the order the caller passed them; reordering the caller's arrays breaks that
@@ -150,7 +164,9 @@ def _run_alg(case, fn, algname, lo, hi, name):
         if not fl and not (name == "q" and meta["form"] == "grid"):
             # alignment: f(s[p], t[p]) == f(s, t)[p]
             p = rng.permutation(len(s))
-            c2 = core.Call(fn, s[p].copy(), t[p].copy(), algname)
+            # (for the buffer-reusing callers: the very same array objects, refilled in the permuted order)
+            s2, t2 = (_buffer("s", s[p]), _buffer("t", t[p])) if reuse else (s[p].copy(), t[p].copy())
+            c2 = core.Call(fn, s2, t2, algname)
             res.count("permuted_calls")
             if c2.ok:
                 v2 = np.asarray(c2.value, dtype=float)
